@@ -12,17 +12,17 @@ CORE_ASSUME = ["behaviours are pure observers in these runs (empty plan): no sub
 
 PROPS = {
     "C01": {
-        "profile": "core", "n_quick": 5, "n_thorough": 40, "nops": 16, "nlists": 3, "cfgs": SIX,
+        "extra": [("mix", 3, 12)], "profile": "core", "n_quick": 5, "n_thorough": 40, "nops": 16, "nlists": 3, "cfgs": SIX,
         "corpus": ["fwd_sub_table", "fwd_sub_table_internal", "fwd_sub_irows", "fwd_sub_sirows", "fwd_subsub_table",
-                   "fwd_subsub_irows", "fwd_subsub_sirows", "fwd_nowhere", "ortho_codes"],
-        "monitor": None,
+                   "fwd_subsub_irows", "fwd_subsub_sirows", "fwd_nowhere", "ortho_codes", "defer_codes"],
+        "monitor": M.mon_C01,
         "relevant": M.relevant_by(M.proj({"G0", "G1", "A"}, keep_res=True)),
         "rule": "seeded random machines (1-3 regions, depth <= 2, conflicting rows, state and sm internal tables) x 6 "
                 "configurations x random guard valuations; distinct = (configuration, machine, active ids, event, guard pattern)",
         "assumptions": CORE_ASSUME,
     },
     "C02": {
-        "profile": "core", "n_quick": 5, "n_thorough": 40, "nops": 16, "nlists": 3, "cfgs": SIX,
+        "extra": [("mix", 3, 12)], "profile": "core", "n_quick": 5, "n_thorough": 40, "nops": 16, "nlists": 3, "cfgs": SIX,
         "corpus": ["rowkind_row", "rowkind_arow", "rowkind_grow", "rowkind_norow",
                    "rowkind_ep_row", "rowkind_ep_arow", "rowkind_ep_grow", "rowkind_ep_norow"],
         "monitor": None,
@@ -31,18 +31,18 @@ PROPS = {
         "assumptions": CORE_ASSUME,
     },
     "C06": {
-        "profile": "all", "n_quick": 5, "n_thorough": 40, "nops": 16, "nlists": 3, "cfgs": SIX,
-        "corpus": ["ortho_codes", "ortho_terminate", "ortho_interrupt"],
+        "extra": [("mix", 3, 12)], "profile": "all", "n_quick": 5, "n_thorough": 40, "nops": 16, "nlists": 3, "cfgs": SIX,
+        "corpus": ["ortho_codes", "ortho_terminate", "ortho_interrupt", "exitpt_codes", "defer_codes"],
         "monitor": M.mon_C06,
         "relevant": M.relevant_by(M.proj(M.ALL, keep_res=True)),
         "rule": "same machines as C01; result code and no_transition calls of every process_event",
         "assumptions": CORE_ASSUME,
     },
     "C07": {
-        "profile": "nest", "n_quick": 4, "n_thorough": 30, "nops": 16, "nlists": 3, "cfgs": SIX,
+        "extra": [("mix", 3, 12)], "profile": "nest", "n_quick": 4, "n_thorough": 30, "nops": 16, "nlists": 3, "cfgs": SIX,
         "corpus": ["fwd_sub_table", "fwd_sub_table_internal", "fwd_sub_irows", "fwd_sub_sirows", "fwd_subsub_table",
-                   "fwd_subsub_irows", "fwd_subsub_sirows", "fwd_nowhere"],
-        "monitor": None,
+                   "fwd_subsub_irows", "fwd_subsub_sirows", "fwd_nowhere", "defer_codes"],
+        "monitor": M.mon_C01,
         "relevant": M.relevant_by(M.proj(M.ALL, keep_res=True, keep_snap=True)),
         "rule": "nested machines (depth 2-3, 1-2 regions per level); full trace compared",
         "assumptions": CORE_ASSUME,
@@ -56,18 +56,20 @@ PROPS = {
         "assumptions": ["exception-free behaviours"],
     },
     "C04": {
-        "profile": "rtc", "n_quick": 5, "n_thorough": 40, "nops": 16, "nlists": 4, "cfgs": SIX + ["back+circ", "back11+circ"],
+        "extra": [("mix", 3, 12)], "profile": "rtc", "n_quick": 5, "n_thorough": 40, "nops": 16, "nlists": 4, "cfgs": SIX + ["back+circ", "back11+circ"],
         "ops": lambda g, md, n: (g.gen_ops_queue(md, n) if g.rng.random() < 0.5 else g.gen_ops(md, n)),
+        "corpus": ["throw_then_submit"],
         "monitor": M.mon_C04,
         "relevant": M.relevant_by(M.proj(M.ALL, keep_res=True, keep_snap=True, keep_ev=True)),
         "rule": "machines whose behaviours submit (process_event / enqueue_event) 0-3 further events at planned behaviour "
                 "positions, plus enqueue / drain / single-step operations from outside; payloads identify occurrences; "
                 "cases in which the model reports re-entrant processing (known finding F16: submission from a substate's exit "
                 "while the enclosing machine leaves the submachine) are discarded and counted",
-        "assumptions": ["queue containers of sufficient capacity (std::deque; boost::circular_buffer with capacity 64 in the +circ configurations)", "no throws in these runs"],
+        "assumptions": ["queue containers of sufficient capacity (std::deque; boost::circular_buffer with capacity 64 in the +circ configurations)", "throws only in the corpus machine throw_then_submit (submission from exception_caught)"],
     },
     "C05": {
-        "profile": "defer", "n_quick": 5, "n_thorough": 40, "nops": 18, "nlists": 3, "cfgs": SIX,
+        "extra": [("mix", 3, 12)], "profile": "defer", "n_quick": 5, "n_thorough": 40, "nops": 18, "nlists": 3, "cfgs": SIX,
+        "corpus": ["defer_codes", "interrupt_defer", "terminate_defer"],
         "monitor": None,
         "relevant": M.relevant_by(M.proj(M.ALL, keep_res=True, keep_snap=True, keep_ev=True)),
         "rule": "machines with deferring states inside the documented envelope (deferred event not handled by the same "
@@ -76,7 +78,7 @@ PROPS = {
         "assumptions": ["back/back11: deferral as documented (see quantifier)", "no throws"],
     },
     "C08": {
-        "profile": "hist", "n_quick": 5, "n_thorough": 40, "nops": 18, "nlists": 3, "cfgs": SIX,
+        "extra": [("mix", 3, 12)], "profile": "hist", "n_quick": 5, "n_thorough": 40, "nops": 18, "nlists": 3, "cfgs": SIX,
         "corpus": ["fork_partial_none", "fork_partial_shallow_other", "fork_partial_shallow_fork", "fork_partial_always"],
         "monitor": None,
         "relevant": M.relevant_by(M.proj({"N", "MN", "X", "MX"}, keep_snap=True)),
@@ -85,7 +87,7 @@ PROPS = {
         "assumptions": CORE_ASSUME,
     },
     "C10": {
-        "profile": "rtc", "n_quick": 5, "n_thorough": 40, "nops": 16, "nlists": 3, "cfgs": SIX,
+        "extra": [("mix", 3, 12)], "profile": "rtc", "n_quick": 5, "n_thorough": 40, "nops": 16, "nlists": 3, "cfgs": SIX,
         "monitor": None,
         "relevant": M.relevant_by(M.proj(M.ALL, keep_res=True, keep_snap=True, keep_ev=True)),
         "monitor": M.mon_C04,
@@ -94,8 +96,8 @@ PROPS = {
         "assumptions": ["guard results of a completion row are fixed during one operation"],
     },
     "C11": {
-        "profile": "block", "n_quick": 5, "n_thorough": 40, "nops": 18, "nlists": 3, "cfgs": SIX,
-        "corpus": ["ortho_terminate", "ortho_interrupt", "ortho_terminate_and_interrupt"],
+        "extra": [("mix", 3, 12)], "profile": "block", "n_quick": 5, "n_thorough": 40, "nops": 18, "nlists": 3, "cfgs": SIX,
+        "corpus": ["ortho_terminate", "ortho_interrupt", "ortho_terminate_and_interrupt", "interrupt_defer", "terminate_defer"],
         "monitor": None,
         "relevant": M.relevant_by(M.proj(M.ALL, keep_res=True, keep_snap=True)),
         "rule": "machines with terminate and interrupt states (1-2 end-interrupt events) at any level",
@@ -104,7 +106,7 @@ PROPS = {
     "C12": {
         "profile": "throw", "n_quick": 4, "n_thorough": 30, "nops": 16, "nlists": 3,
         "cfgs": SIX + ["back:p1", "back:p2", "back:p3", "back11:p3", "mp11:p1", "mp11:p2", "mp11:p3", "mp11_fct:p3"],
-        "corpus": ["throw_positions", "throw_nested_entry"],
+        "corpus": ["throw_positions", "throw_nested_entry", "throw_then_submit"],
         "monitor": M.mon_C12,
         "relevant": M.relevant_by(M.proj(M.ALL, keep_res=True, keep_snap=True, keep_ev=True)),
         "rule": "plans make the n-th behaviour invocation of an operation throw std::runtime_error (guards, actions, "
@@ -112,9 +114,9 @@ PROPS = {
         "assumptions": ["exceptions derive from std::exception; no_exception_thrown is not configured"],
     },
     "C09": {
-        "profile": "pseudo", "n_quick": 5, "n_thorough": 40, "nops": 18, "nlists": 3,
+        "extra": [("mix", 3, 12)], "profile": "pseudo", "n_quick": 5, "n_thorough": 40, "nops": 18, "nlists": 3,
         "cfgs": SIX + ["back:p3", "back:p2", "back_fct:p3", "mp11:p3", "mp11_fct:p1"],
-        "corpus": ["exitpt_outside", "fork_partial_none", "fork_partial_shallow_other", "fork_partial_shallow_fork", "fork_partial_always"],
+        "corpus": ["exitpt_outside", "exitpt_codes", "exitpt_regions", "fork_partial_none", "fork_partial_shallow_other", "fork_partial_shallow_fork", "fork_partial_always"],
         "monitor": None,
         "relevant": M.relevant_by(M.proj(M.ALL, keep_res=True, keep_snap=True, keep_ev=True)),
         "rule": "machines whose submachines have explicit-entry states, forks, entry and exit pseudo states (rows generated "
